@@ -177,6 +177,8 @@ def read_sites(ctx):
 # ------------------------------------------------------------------ cases
 
 def sizes_for(limit, cap=None):
+    if limit <= 0:
+        return [0, 1, 10]
     s = sorted({max(0, limit - 1), limit, limit + 1, 10 * limit if limit > 0 else 10})
     if cap is not None:
         s = sorted({min(x, cap) for x in s})
@@ -218,9 +220,9 @@ def larger_choices(limit, a, thorough, cap=None):
 
 def gen_cases(ctx):
     thorough = ctx.tier != "quick"
-    limits = [1, 10, 100, 4096, 65536]
+    limits = [-1, 0, 1, 10, 100, 4096, 65536]
     if thorough:
-        limits = [0, 1, 2, 10, 100, 255, 256, 4096, 65535, 65536, 300000]
+        limits = [-7, -1, 0, 1, 2, 10, 100, 255, 256, 4096, 65535, 65536, 300000]
         limits += sorted({ctx.rng.randint(3, 70000) for _ in range(6)})
     cases = []
 
@@ -236,7 +238,7 @@ def gen_cases(ctx):
             szs = sizes_for(limit, cap)
             if thorough:
                 szs = sorted(set(szs) | {min(x, cap) if cap else x for x in
-                                         (ctx.rng.randint(0, 2 * limit + 2), ctx.rng.randint(0, 12 * limit + 12))})
+                                         (ctx.rng.randint(0, max(2, 2 * limit + 2)), ctx.rng.randint(0, max(12, 12 * limit + 12)))})
             for a in szs:
                 # the real client: truthful by construction
                 add(op="client", t=t, limit=limit, decl="truthful", actual=a, declared=a, via="request")
@@ -277,9 +279,24 @@ def gen_cases(ctx):
                 add(op="raw", t=t, limit=limit, decl="truthful", actual=a, declared=a, flag=True)
                 if t in ("tcp", "unix"):
                     add(op="raw", t=t, limit=limit, decl="split", actual=a, declared=a, flag=True)
+    # tcp / unix: announcements over the whole 31-bit range of the length field (around every power of two
+    # from 2^20 up, and 2^k plus a remainder that by itself would be within the limit), with only the remainder
+    # really sent: whatever a reader makes of the high bits, a header announcing more than the limit is refused
+    for t in ("tcp", "unix"):
+        for limit in ([10, 64, 4096] if not thorough else [0, 1, 10, 64, 4096, 65536]):
+            for k in range(20, 31):
+                p2 = 1 << k
+                rems = [24, limit] if not thorough else [0, 1, 24, max(0, limit - 1), limit, ctx.rng.randint(0, max(1, limit))]
+                for r in sorted(set(rems)):
+                    add(op="raw", t=t, limit=limit, decl="larger", actual=r, declared=p2 + r, huge=True)
+                add(op="raw", t=t, limit=limit, decl="larger", actual=min(24, max(limit, 0)), declared=p2 - 1, huge=True)
+                if thorough:
+                    j = ctx.rng.randint(20, 30)
+                    add(op="raw", t=t, limit=limit, decl="larger", actual=24, declared=min((1 << 31) - 1, p2 + (1 << j) + 24), huge=True)
+            add(op="raw", t=t, limit=limit, decl="larger", actual=24, declared=(1 << 31) - 1, huge=True)
     # the limit is configured after the service has been bound
     for t in TRANSPORTS:
-        for limit in ([10, 4096] if not thorough else [1, 10, 100, 4096, 60000]):
+        for limit in ([0, 10, 4096] if not thorough else [-1, 0, 1, 10, 100, 4096, 60000]):
             cap = UDP_MAX_BODY if t == "udp" else None
             for a in sizes_for(limit, cap):
                 add(op="client", t=t, limit=limit, decl="truthful", actual=a, declared=a, via="request", late=True)
@@ -412,6 +429,13 @@ def property_oracle(c, o, decoded):
     reply = decode_reply(c, o, decoded)
     # a websocket message whose index word has the flag bit set is an invalid frame whatever its size
     honest = c["decl"] in HONEST and not (c["t"] == "ws" and c.get("flag"))
+    if c["t"] in ("tcp", "unix") and c["op"] == "raw" and c["declared"] > limit and (io != 0 or fn != 0):
+        # a stream frame is delimited by its header: one that announces more than the limit is refused before
+        # anything of it is read, whatever really follows
+        fails.append(("declared-oversize-processed",
+                      "header announcing %d bytes (0x%x) with MaxRequestLength=%d, %d bytes sent: IO plugin ran %d time(s) on %s bytes, "
+                      "function ran %d time(s)" % (c["declared"], c["declared"], limit, c["actual"], io, o.get("io_lens"), fn)))
+        return fails
     saw_oversize = [l for l in o.get("io_lens", []) if l > limit]
     if n is None or n <= limit:
         if saw_oversize:
@@ -455,6 +479,10 @@ def property_oracle(c, o, decoded):
 
 
 def key_for(c, kind):
+    if c["limit"] <= 0 and kind in ("oversize-processed", "declared-oversize-processed", "oversize-body-reached-plugins"):
+        # MaxRequestLength = 0 admits only the empty request, a negative one nothing: one defect whatever the
+        # transport and declaration it shows on
+        return "limit-%s-not-enforced" % ("zero" if c["limit"] == 0 else "negative")
     k = KNOWN_KEYS.get((c["t"], c["decl"], kind))
     if k and not (c.get("method") or c.get("flag") or c.get("late")):
         return k
@@ -467,6 +495,8 @@ def key_for(c, kind):
         q += "-flagged-index"
     if c.get("late"):
         q += "-limit-set-after-bind"
+    if c.get("huge"):
+        q += "-announced-beyond-2^20"
     return "%s-%s-%s" % (q, c["decl"], kind)
 
 
@@ -660,13 +690,16 @@ def run(ctx):
         want = model_projection(m, c, o)
         over = (m["framed"] != "-" and int(m["framed"]) > c["limit"])
         canon = "%s|%d|%s|%d|%d|%s|%s|%s|%s|%s" % (c["t"], c["limit"], c["decl"], c["actual"], c["declared"], c["op"],
-                                                    c.get("via", c.get("extra", "")), c.get("method", ""), c.get("flag", ""), c.get("late", ""))
+                                                    c.get("via", c.get("extra", "")), c.get("method", ""), c.get("flag", ""), str(c.get("late", "")) + str(c.get("huge", "")))
         if c.get("method"):
             ctx.bump("by_method", c["method"])
         if c.get("flag"):
             ctx.bump("flagged_index_frames")
         if c.get("late"):
             ctx.bump("limit_set_after_bind")
+        if c.get("huge"):
+            ctx.bump("announced_beyond_2^20")
+        ctx.bump("by_limit_sign", "negative" if c["limit"] < 0 else "zero" if c["limit"] == 0 else "positive")
         ctx.count_case(canon, nontrivial=(c["actual"] > c["limit"] or c["declared"] > c["limit"]))
         ctx.bump("by_transport", c["t"])
         ctx.bump("by_declaration", c["decl"])
@@ -719,7 +752,7 @@ def run(ctx):
     def report_fail(c, o, kind, text, seen=None, want=None, line=None):
         key = key_for(c, kind)
         base = (c["t"], c["decl"], kind)
-        qualified = bool(c.get("method") or c.get("flag") or c.get("late"))
+        qualified = bool(c.get("method") or c.get("flag") or c.get("late") or c.get("huge"))
         if key in reported or (qualified and base in reported_base):
             return      # one key per defect: a failure that shows with a plain request is not repeated per method / flag
         reported.add(key)
